@@ -19,6 +19,19 @@ def tla_set(xs):
     return "{" + ", ".join(str(x) for x in xs) + "}"
 
 
+def gen_chunks(module, constants, invariants, label, chk, timeout=1500, xmx="10g", chunk=50000):
+    """Like gen(), for exhaustive runs with very many exported states: yields the scenarios in lists of at most `chunk`
+    (the parsed form of a scenario takes ~20 KB of Python objects; millions of them must never exist at the same time)."""
+    if module == "MC_LoadScript":
+        constants = dict({"CorruptBytes": "{}", "TypedTargets": "{}", "Arch": '"msgpack"', "NumNeg": "0", "NumPos": "0", "NumBase": "0", "NumLeafOnly": "FALSE"}, **constants)
+    cfg = "SPECIFICATION Spec\nCONSTANTS\n" + "".join("  %s = %s\n" % kv for kv in constants.items()) + \
+          "INVARIANTS " + " ".join(invariants) + "\n"
+    r = vlib.tlc(module, cfg=write_cfg("%s_%s.cfg" % (module, label), cfg), timeout=timeout, xmx=xmx)
+    chk.add_tlc("%s %s" % (module, label), r, constants)
+    for part in r.printed_chunks("GEN", chunk):
+        yield part
+
+
 def gen(module, constants, invariants, label, chk, timeout=1500, xmx="10g", simulate=None, depth=None):
     if module == "MC_LoadScript":
         constants = dict({"CorruptBytes": "{}", "TypedTargets": "{}", "Arch": '"msgpack"', "NumNeg": "0", "NumPos": "0", "NumBase": "0", "NumLeafOnly": "FALSE"}, **constants)
